@@ -385,3 +385,17 @@ def run(repo: Repo, rep: Report, tier: str) -> None:
 
     parser_fold_rule(repo, rep, "C07.R22")
     generic_write_array_rule(repo, rep, "C07.R23")
+    from .c05 import text_array_fold_rule
+
+    # character arrays: x[] is dumped with its terminator re-appended, x[n] as exactly its characters
+    text_array_fold_rule(repo, rep, "C07.R24")
+    from .c10 import expression_fold_rule
+
+    # x[expr]: the length is what the expression evaluates to over the fields parsed before it, falling back to constants
+    expression_fold_rule(repo, rep, "C07.R25")
+    from .c05 import leb128_rule
+    from .share import share_rules
+
+    # uleb128 x[] / ileb128 x[]: the terminator is the first element whose value is zero
+    leb128_rule(repo, rep, "C07.R26")
+    share_rules(repo, rep, tier, "c08", {"C08.R1": "C07.R27"}, "x[EOF] of characters reads 'everything': the size handed to read() must be one every stream kind accepts (-1, not another negative number)")
